@@ -140,10 +140,27 @@ def src_ids(v):
     return tuple(out)
 
 
+def part_path(v):
+    """fragment part numbers along the provenance chain (distinguishes the
+    parts of one source example after fragment + unbatch)."""
+    out = []
+    stack = [v]
+    while stack:
+        x = stack.pop()
+        if isinstance(x, dict):
+            if 'part' in x:
+                out.append(x['part'])
+            if 'x' in x:
+                stack.append(x['x'])
+        elif isinstance(x, (list, tuple)):
+            stack.extend(reversed(x))
+    return tuple(out)
+
+
 def _enter(stage, x, kind='call'):
     ctx = CTX
     ids = src_ids(x)
-    ctx.event(kind, stage, ids)
+    ctx.event(kind, stage, ids, part_path(x))
     c = ctx.cost(stage, ids)
     if c:
         ctx.sim.work(c)
